@@ -23,7 +23,7 @@ META = {
     "a lot selected from the heap is put back on every returning path (so a lot handed out for an income event, which consumes nothing, is not lost); when the event "
     "timestamp advances the current lot's remainder is stored back before a lot is sought for the new event, an exactly exhausted lot is never carried to the next event "
     "without a seek; method and candidates in force are looked up with the taxable event's own year; all candidate structures of a schedule share one partial-amount table; "
-    "lots are indexed by an order-preserving (UTC timestamp, padded id) key and the candidate window ends at the last lot acquired at or before the disposal.",
+    "lots are indexed by an order-preserving (UTC timestamp, padded id) key and the candidate window ends at the last lot acquired at or before the disposal; lots and events reach the engine through entry sets whose only ordering is the stable sort by timestamp (so the lot list agrees with the index keys for same-instant lots).",
     "not_decided": "that the greedy matcher yields the prescribed order on every history (ties at equal timestamps, partially consumed lots, heap duplicates): a statement "
     "about all executions of a state machine with an unbounded heap; the clauses above are necessary conditions, each of which changes the pairing for some input when broken.",
     "assumptions": ["heapq is a min-heap on tuple order", "prezzemolo AVLTree.find_max_value_less_than returns the value of the greatest key <= the argument"],
@@ -132,51 +132,7 @@ def run(rep: Report, tier: str) -> None:
 
     # ---------------------------------------------------------------- C01.b / c
     rb = rep.rule("C01.b", "heap typestate: a lot selected from the heap is re-inserted on every returning path (or every seek is for an event that consumes it)", floor=2)
-    seek = prog.func(AAM, "AbstractFeatureBasedAccountingMethod.seek_non_exhausted_acquired_lot")
-    rep.analysed(seek)
-    loops = [n for n in seek.node.body if isinstance(n, ast.For)]
-    after = seek.node.body[seek.node.body.index(loops[0]) + 1 :] if loops else []
-    se = SymExec(norm, norm.ctx_for(seek, subst_locals=False), inline_helpers=False)
-    init = SPath()
-    init.vars["selected_acquired_lot"] = (("sym", "selected"), ("opt", ("cls", "rp2.in_transaction:InTransaction")))
-    init.vars["selected_acquired_lot_amount"] = (("sym", "selected_amount"), ("cls", "rp2.rp2_decimal:RP2Decimal"))
-    paths = se.run(after, init)
-    selecting = [p for p in paths if p.exit == "return" and p.ret is not None and p.ret[0] == "new"]
-    if not selecting:
-        raise AnalysisError("feature-based seek has no path returning a selected lot")
-    unconditional = True
-    for p in selecting:
-        pushes = [e for e in p.events if e[0] == "call" and e[1][0] == "call" and e[1][1].endswith("add_selected_lot_to_heap") and dict(e[1][2]).get("lot") == ("sym", "selected")]
-        if not pushes:
-            unconditional = False
-    if unconditional:
-        rep.ok(rb, "feature-based seek re-inserts the selected lot on every returning path", f"{len(selecting)} returning path(s)")
-    else:
-        # conditional disjunct: every seek must then be dominated by 'event is not earn-typed' (C01.c)
-        offenders = _unguarded_seeks(m)
-        if offenders:
-            for mod, qual, node in offenders:
-                rep.violation(
-                    rb,
-                    mod,
-                    qual,
-                    f"seek for a possibly earn-typed event: {short(node, 80)}",
-                    "the feature-based seek drops the selected lot from the heap on some returning path (it is re-inserted only when it exceeds the event amount), and this call seeks a lot on behalf of "
-                    "an event that may be earn-typed (income consumes nothing): the lot is lost with its full balance and HIFO/LOFO/LIFO pair later disposals with worse-ranked lots",
-                    loc(node),
-                )
-        else:
-            rep.ok(rb, "conditional re-insertion, and every seek is dominated by 'not is_earning()'", "C01.c disjunct")
-    # chronological: from_index only advances past exhausted lots
-    cseek = prog.func(AAM, "AbstractChronologicalAccountingMethod.seek_non_exhausted_acquired_lot")
-    rep.analysed(cseek)
-    adv = [n for n in ast.walk(cseek.node) if isinstance(n, ast.Call) and isinstance(n.func, ast.Attribute) and n.func.attr == "set_from_index"]
-    ok = len(adv) == 1 and unparse(adv[0].args[0]) == "lot_candidates.from_index + 1"
-    if ok:
-        g = m.guard_term(adv[0], norm.ctx_for(cseek, subst_locals=False), None, False)
-        gs = show(g)
-        ok = "__acquired_lot_2_partial_amount" in gs and "<= D0" in gs
-    rep.check(ok, rb, AAM, cseek.qualname, "chronological seek advances from_index by one only past a lot whose remaining amount is zero", "from_index is advanced under a condition other than 'cached remaining amount is not > ZERO' (or by more than one): a lot with balance would be skipped for good", loc(cseek.node))
+    engine.check_heap_typestate(rep, rb)
 
     # ---------------------------------------------------------------- C01.d
     rd = rep.rule("C01.d", "re-seek obligations: timestamp advance puts the lot back and seeks; an exhausted lot is never carried over without a seek", floor=5)
@@ -223,28 +179,5 @@ def run(rep: Report, tier: str) -> None:
     # ---------------------------------------------------------------- C01.g (lot index)
     rg = rep.rule("C01.g", "lots are indexed by an order-preserving (UTC timestamp, padded id) key; candidate window ends at the last lot acquired at or before the event", floor=8)
     engine.check_key_builder(rep, rg)
-
-
-def _unguarded_seeks(m) -> list:
-    """Call sites that reach a seek on behalf of an event not known to be non-earning."""
-    prog = m.prog
-    out = []
-    fi = prog.func(engine.TE, "_create_unfiltered_gain_and_loss_set")
-    for p, news, routine, f, loop in engine.loop_branches(m):
-        if routine is None:
-            continue
-        rname = routine[1].split(".")[-1].split(":")[-1]
-        conds = [show(c) for c in p.conds()]
-        non_earn = any(c.startswith("not ") and "is_earning" in c for c in conds)
-        if rname in ("get_acquired_lot_for_taxable_event",) and not non_earn:
-            out.append((f.module, f.qualname, loop))
-    # the wrapper and the engine's timestamp-advance path seek for the NEXT event, whose type is unknown
-    wrap = prog.func(engine.TE, "_get_next_taxable_event_and_acquired_lot")
-    for n in ast.walk(wrap.node):
-        if isinstance(n, ast.Call) and isinstance(n.func, ast.Attribute) and n.func.attr == "get_acquired_lot_for_taxable_event":
-            out.append((wrap.module, wrap.qualname, n))
-    gn = prog.func(engine.AE, "AccountingEngine.get_next_taxable_event_and_amount")
-    for n in ast.walk(gn.node):
-        if isinstance(n, ast.Call) and isinstance(n.func, ast.Attribute) and n.func.attr == "get_acquired_lot_for_taxable_event":
-            out.append((gn.module, gn.qualname, n))
-    return out
+    rh = rep.rule("C01.h", "lots and events reach the engine in time order: entry sets sort by timestamp only (stable), nothing else reorders an entry list", floor=4)
+    engine.check_chronological_input(rep, rh)
